@@ -3,6 +3,8 @@
 package store
 
 import (
+	"os"
+	"path/filepath"
 	"context"
 	"errors"
 	"fmt"
@@ -134,6 +136,16 @@ func newBackend(ctx context.Context, name string) (nodeenrollment.Storage, func(
 			return nil, nil, err
 		}
 		return s, func() { _ = s.Cleanup(ctx) }, nil
+	case "filemeta":
+		// the file back end in a base directory whose NAME contains glob metacharacters, next to a sibling directory
+		// that such a pattern would also match
+		tmp, err := os.MkdirTemp("", "nevstore")
+		if err != nil {
+			return nil, nil, err
+		}
+		_ = os.MkdirAll(filepath.Join(tmp, "worker1 a-b"), 0o700)
+		s, err := file.New(ctx, file.WithBaseDirectory(filepath.Join(tmp, "worker[1] a?b*")))
+		return s, func() { _ = os.RemoveAll(tmp) }, err
 	case "storeonce":
 		s, err := teststore.New(ctx)
 		return s, func() {}, err
